@@ -643,7 +643,12 @@ impl World {
                                     }
                                 }
                             }
-                            if fires == n.fire_snapshot {
+                            // group members added through extend/from_iter have
+                            // unobservable keys: an earlier occupant of this slot
+                            // cannot be identified, so S is not judged there
+                            let unknown_keys = self.group_model
+                                && self.nodes[p].children().iter().any(|&c| self.nodes[c].key.is_none());
+                            if fires == n.fire_snapshot && !unknown_keys {
                                 let m = format!(
                                     "{} re-polled although its last answer was Pending and none of its wakers fired since",
                                     self.path(id)
@@ -998,8 +1003,13 @@ pub fn comb_poll_end(id: NodeId, answer: Answer) {
             let p = w.path(id);
             w.trace.push(format!("   <poll {} -> {}", p, answer.show()));
         }
+        let group_top = w.group_model && w.top == Some(id);
         let n = &mut w.nodes[id];
-        let fin = matches!(answer, Answer::Ready(_) | Answer::End);
+        let mut fin = matches!(answer, Answer::Ready(_) | Answer::End);
+        if group_top {
+            // None is not final for a group: it can be refilled
+            fin = false;
+        }
         let pr = n.polls.last_mut().unwrap();
         pr.end = now;
         pr.answer = answer;
